@@ -43,7 +43,7 @@ func (r *Replayer) Replay(process func(record []byte) error) (err error) {
 		}
 	}()
 
-	for _, path := range walFiles {
+	for i, path := range walFiles {
 		reader, err := r.walOptions.readerFactory(path)
 		if err != nil {
 			return fmt.Errorf("error while creating WAL reader under '%s': %w", path, err)
@@ -52,6 +52,11 @@ func (r *Replayer) Replay(process func(record []byte) error) (err error) {
 
 		err = reader.Open()
 		if err != nil {
+			// a process that died between creating a WAL file and writing its header leaves a file that is shorter
+			// than a header behind, nothing can have been appended to it
+			if errors.Is(err, io.EOF) || errors.Is(err, io.ErrUnexpectedEOF) {
+				continue
+			}
 			return fmt.Errorf("error while opening WAL reader under '%s': %w", path, err)
 		}
 
@@ -59,6 +64,12 @@ func (r *Replayer) Replay(process func(record []byte) error) (err error) {
 			bytes, err := reader.ReadNext()
 			// io.EOF signals that no records are left to be read
 			if errors.Is(err, io.EOF) {
+				break
+			}
+
+			// the newest file can end in a record that was cut off when the process died (it was never acknowledged
+			// as synced), that is the end of the log and not a corruption
+			if i == len(walFiles)-1 && errors.Is(err, io.ErrUnexpectedEOF) {
 				break
 			}
 
